@@ -228,9 +228,13 @@ Inductive op :=
     (* a time-out of the status machine fires (syncStateTimeout, 5 minutes): the record of cluster c may be replaced;
        modelled as its removal, at any moment *)
 | OSnapRpc (o : op)
-| ORpcDown (b : list (sentry * bool)).
-    (* an ApplyRaftReqs call that reaches the node while the raft group is not ready (stopped, being re-created, still
-       replaying its log): the handler answers errRaftGroupNotReady, nothing is proposed *)
+| ORpcDown (b : list (sentry * bool))
+| OSnapLate (back : nat).
+    (* ORpcDown: an ApplyRaftReqs call that reaches the node while the raft group is not ready (stopped, being
+       re-created, still replaying its log): the handler answers errRaftGroupNotReady, nothing is proposed.
+       OSnapLate back: the snapshot that beginSnapshot STARTED `back` committed entries ago is saved now: GetSnapshot
+       ran in the apply loop at that index and captured the store's checkpoint AND the synced map there
+       (KVNode.GetSnapshot: Backup + remoteSyncedStates.Clone()); GetData / SaveSnap run later in a goroutine *)
     (* the grpc handlers NotifyTransferSnap / NotifyApplySnap around o = OXfer / OSnapReq / OSkipReq on a healthy
        single leader: pre-filter on (term, index), then the request, whose proposal is committed and applied before
        the handler returns *)
@@ -273,6 +277,11 @@ Definition step0 (nd : node) (o : op) : node * res :=
   match o with
   | OSnapRpc _ => (nd, RNone)
   | ORpcDown _ => (nd, RErr)
+  | OSnapLate back =>
+      if (back <=? length (n_log nd))%nat
+      then let k := (length (n_log nd) - back)%nat in
+           (mkN (n_cur nd) (n_log nd) (Some (k, apply_log init_r (firstn k (n_log nd)))) (n_pending nd) (n_snaps nd), ROk)
+      else (nd, RNone)
   | ODeliver e tsok propok pre =>
       if pre && prefilter (r_synced (n_cur nd)) e then (nd, RSkip)
       else if negb tsok then (nd, RErr)
